@@ -291,6 +291,10 @@ def enc_known(v):
     return v is Undefined or (isinstance(v, (bool, str)) and v in CODES)
 
 
+def pt_named(pt):
+    return pt
+
+
 def shard_layer(col, shard_i, n):
     import tatsu
     from tatsu import peg
@@ -312,21 +316,32 @@ def shard_layer(col, shard_i, n):
                     d[f] = v
             return d
         ct, dr, pt = pick(0.4), pick(0.4, allow_none=False), pick(0.4)   # a directive always carries a value
+        # the parse-time layer reaches the model as keyword settings, as a ParserConfig object, or as both (a keyword wins over the object)
+        channel = rng.choice(['kw', 'kw', 'obj', 'both'])
         try:
             gm = peg.Grammar('T', rules, directives=dict(dr), **ct)
-            cfg = gm.new_parse_config(**pt)
+            if channel == 'kw':
+                cfg = gm.new_parse_config(**pt)
+            elif channel == 'obj':
+                cfg = gm.new_parse_config(config=ParserConfig(**pt))
+            else:
+                pt_obj = {f: v for f, v in pt.items() if rng.random() < 0.6}
+                pt_kw = pick(0.3)
+                cfg = gm.new_parse_config(config=ParserConfig(**pt_obj), **pt_kw)
+                pt = {f: (pt_kw[f] if pt_kw.get(f) is not None else pt_obj.get(f)) for f in set(pt_obj) | set(pt_kw)}
         except Exception as e:  # noqa
             col.count('layer.raises:' + type(e).__name__)
             continue
+        col.count('layer.channel.' + channel)
         impl = {f: getattr(cfg, f) for f in FIELDS}
         # documented interactions applied by ParserConfig.__post_init__ (not part of the layering itself)
         def fields(d):
             return '(' + ' '.join(f'({sx(f)} {"none" if enc(d[f]) is None else "(some %d)" % enc(d[f])})' for f in d) + ')'
         dflt = {f: getattr(defaults, f) for f in FIELDS}
         reqs.append(f'(layer {fields(dflt)} {fields(ct)} {fields(dr)} {fields(pt)})')
-        want.append((ct, dr, pt, impl))
+        want.append((ct, dr, pt, impl, channel))
     replies = mr.ask(reqs)
-    for (ct, dr, pt, impl), rep in zip(want, replies):
+    for (ct, dr, pt, impl, channel), rep in zip(want, replies):
         model = {}
         for k, v in rep:
             name = vlib.sx_str(k)
@@ -334,11 +349,17 @@ def shard_layer(col, shard_i, n):
         col.case(['layer', str(ct), str(dr), str(pt)], nontrivial=bool(ct or dr or pt))
         col.count('layer.cases')
         for f in FIELDS:
+            if channel != 'kw' and pt.get(f) is None:
+                # a ParserConfig OBJECT is complete: the fields nobody named hold the class defaults (False, True, ...), and whether those
+                # count as 'given at parse time' is not documented - only the fields the caller did name are compared on this channel
+                continue
             iv = enc(impl[f]) if impl[f] is None or enc_known(impl[f]) else -1
             mv = model.get(f)
             # __post_init__ couplings: memoization off forces left_recursion off; namechars forces nameguard on
             if f == 'left_recursion' and not impl['memoization']:
                 continue
+            if f == 'left_recursion' and channel != 'kw' and 'memoization' in pt_named(pt) and not pt.get('memoization'):
+                continue      # ParserConfig(memoization=None/False) switches its OWN left_recursion off when the object is built
             if f == 'nameguard' and (impl['namechars'] or any(d.get('namechars') for d in (ct, dr, pt))):
                 continue      # the coupling is applied by every layer's __post_init__, so it sticks once any layer names namechars
             if iv != mv:
@@ -410,6 +431,17 @@ def layering_api(col):
         ('void-skips-whitespace', "start = 'a' () /b/ $ ;", {}, 'a b', True),
         ('pattern-does-not-skip', "start = 'a' /b/ $ ;", {}, 'a b', False),
         ('eof-skips-whitespace', "start = 'a' $ ;", {}, 'a \n ', True),
+        # skip-to: what is skipped over on the way includes comments - a target that could match INSIDE a comment is not found there
+        ('skipto-pattern-not-inside-adjacent-comment', "@@comments :: /\\(\\*.*?\\*\\)/\nstart = 'let' ->/=\\w/ $ ;", {}, 'let(* =y *) =x', True),
+        ('skipto-pattern-value-after-adjacent-comment', "@@comments :: /\\(\\*.*?\\*\\)/\nstart = 'let' ->/=\\w/ 'y' $ ;", {}, 'let(* =y *) =x', False),
+        ('skipto-token-rule-not-inside-comment', "@@comments :: /\\(\\*.*?\\*\\)/\nstart = 'let' ->EQ $ ;\nEQ = /=\\w/ ;", {}, 'let(* =y *)=x', True),
+        ('skipto-token-rule-not-inside-comment-2', "@@comments :: /\\(\\*.*?\\*\\)/\nstart = 'let' ->EQ 'y' $ ;\nEQ = /=\\w/ ;", {}, 'let(* =y *) =x', False),
+        ('skipto-eol-comment', "@@eol_comments :: /#[^\\n]*/\nstart = 'let' ->/=\\w/ 'y' $ ;", {}, 'let# =y\n =x', False),
+        # rule names that begin with a letter without case (or hold no letter at all) are NOT upper-case: whitespace is skipped at their entry
+        ('uncased-rule-name-skips', "start = 'q' \u6570 $ ;\n\u6570 = /a/ ;", {}, 'q a', True),
+        ('underscore-rule-name-skips', "start = 'q' _ $ ;\n_ = /a/ ;", {}, 'q a', True),
+        ('hebrew-rule-name-skips', "start = 'q' \u05e4 $ ;\n\u05e4 = /a/ ;", {}, 'q a', True),
+        ('titlecase-rule-name-skips', "start = 'q' \u01c5z $ ;\n\u01c5z = /a/ ;", {}, 'q a', True),
     ]
     for name, gp, kw, text, want in probes:
         col.case(['api-probe', name, text], nontrivial=True)
@@ -417,6 +449,17 @@ def layering_api(col):
             got = accepts(lambda: tatsu.compile(gp).parse(text, **kw))
         except Exception as e:  # noqa
             got = f'raises {type(e).__name__}'
+        # the generated parser places whitespace skipping exactly like the model
+        try:
+            nsg: dict = {}
+            exec(tatsu.to_python_sourcecode(gp, name='W'), nsg)
+            got_gen = accepts(lambda: nsg['WParser']().parse(text, **kw))
+        except Exception as e:  # noqa
+            got_gen = f'raises {type(e).__name__}'
+        if got_gen != got and not isinstance(got, str):
+            col.violation(f'api:probe-generated:{name}', f'documented whitespace / settings behaviour: {name}: the generated parser accepts={got_gen}, the model accepts={got}',
+                          {'oracle': 'documented placement and settings (probe, generated parser)', 'grammar': gp, 'settings': {k: repr(v) for k, v in kw.items()},
+                           'text': text, 'model.parse': got, 'generated': got_gen})
         if got != want:
             col.violation(f'api:probe:{name}', f'documented whitespace / settings behaviour: {name}: accepted={got}, expected {want}',
                           {'oracle': 'documented placement and settings (probe)', 'grammar': gp, 'settings': {k: repr(v) for k, v in kw.items()},
